@@ -78,6 +78,15 @@ def check(ctx: Ctx) -> None:
         waiters_exist = bool([e for e in ctx.effects(fields=["_enough_room"], kinds=["acquire"])])
         rep.ob("R15.3", "raising the limit wakes tasks waiting for room", bool(wake) if waiters_exist else True, func=f, construct=wake[0] if wake else "pool_size.setter: no wake-up of waiters",
                detail="" if wake else "spawners blocked in `await self._enough_room.acquire()` are only woken by release(); the setter changes the counter without waking them")
+        g = ctx.an.cfg(f)
+        for wk in ctx.distinct_sites(wake):
+            guards = [t for t in ctx.nodes(f, lambda n: n.op == "test" and (any(isinstance(x, ast.Name) and x.id == vp for x in ast.walk(n.ast)) or "_value" in ast.unparse(n.ast)
+                                                                              or "locked" in ast.unparse(n.ast)))
+                      if not (isinstance(t.ast, ast.Compare) and len(t.ast.ops) == 1 and isinstance(t.ast.comparators[0], ast.Constant) and t.ast.comparators[0].value == 0
+                              and isinstance(t.ast.ops[0], ast.Lt))]
+            guarded = any(wk not in reach([g.entry], avoid={t}) for t in guards)
+            rep.ob("R15.3", "waiters are woken only when the new limit actually leaves room (a lowered or unchanged limit admits nobody)", guarded, node=wk,
+                   detail="" if guarded else "the wake-up is unconditional: a task waiting for room is admitted even when the limit was lowered below the number of running tasks")
     A.r_validate_first(ctx, "R15.4", ("pool_size.setter",), floor=1)
     A.r_raise_inventory(ctx, "R15.4i")
     # constructor goes through the setter
